@@ -222,6 +222,11 @@ func genC06() {
 	for _, n := range []string{"StatePartiallyFilled", "StateExecuted"} {
 		l.p("def order%s : Nat := %s", n, intConst(ord, "order", n))
 	}
+	rpc := newConstEnv(pkgFiles("auctioneerrpc"))
+	for _, n := range []string{"OUTPUT_RECREATED", "OUTPUT_DUST_EXTENDED_OFFCHAIN",
+		"OUTPUT_DUST_ADDED_TO_FEES", "OUTPUT_FULLY_SPENT"} {
+		l.p("def diff_%s : Nat := %s", n, intConst(rpc, "auctioneerrpc", "AccountDiff_"+n))
+	}
 	l.p("def orderModifierCtors : List (String × String) := %s",
 		leanPairList(modifierCtors(orderFiles, "order")))
 	l.p("def acctModifierCtors : List (String × String) := %s",
